@@ -3,8 +3,10 @@ From Coq Require Import List Bool Arith Lia.
 Import ListNotations.
 From Mv Require Import Model.Watch.
 
+(* some schedule leads from an initial state (acceleration allowed or not,
+   root content d) to s *)
 Definition reachable (fixed : bool) (d : nat) (s : st) : Prop :=
-  exists sched, run fixed (init d) sched = Some s.
+  exists a sched, run fixed (init a d) sched = Some s.
 
 (* the content the next poll compare is made against *)
 Definition base (s : st) : nat :=
@@ -65,9 +67,9 @@ Record inv (fixed : bool) (s : st) : Prop := {
            c <> pprev s \/ pending_forced fixed s = true \/ wsa w = true \/ cc s = TRunning true
 }.
 
-Lemma inv_init : forall fixed d, inv fixed (init d).
+Lemma inv_init : forall fixed a d, inv fixed (init a d).
 Proof.
-  intros fixed d. constructor; cbn; try (intros; discriminate); try lia; auto.
+  intros fixed a d. constructor; cbn; try (intros; discriminate); try lia; auto.
 Qed.
 
 Ltac inv_pre I :=
@@ -198,7 +200,7 @@ Proof.
 Qed.
 
 Lemma reachable_inv : forall fixed d s, reachable fixed d s -> inv fixed s.
-Proof. intros fixed d s (sched & R). eapply run_inv; [apply inv_init|exact R]. Qed.
+Proof. intros fixed d s (a & sched & R). eapply run_inv; [apply inv_init|exact R]. Qed.
 
 (* ---------- the theorems ---------- *)
 
@@ -290,7 +292,7 @@ Definition reversal_schedule : list action :=
 
 Lemma reversal_unnoticed_unfixed :
   exists s c ign fz w,
-    run false (init 5) reversal_schedule = Some s /\ pc s = PCompare c ign fz w
+    run false (init true 5) reversal_schedule = Some s /\ pc s = PCompare c ign fz w
     /\ wbased w = true /\ ign = false /\ wedits w = 1
     /\ compare_strobes s = false /\ wsa w = false /\ cc s = CIdle
     /\ hd_error (log s) = Some (EvScanFull 7 8).
@@ -301,10 +303,10 @@ Qed.
 Lemma noticed_refuted_unfixed : ~ noticed_statement false.
 Proof.
   intros N. destruct reversal_unnoticed_unfixed as (s & c & ign & fz & w & R & P & WB & IG & WE & CS & SA & CC & _).
-  destruct (N 5 s c ign fz w (ex_intro _ _ R) P WB IG WE) as [X|[X|X]]; congruence.
+  destruct (N 5 s c ign fz w (ex_intro _ true (ex_intro _ _ R)) P WB IG WE) as [X|[X|X]]; congruence.
 Qed.
 
 Lemma reversal_noticed_fixed :
-  exists s, run true (init 5) (reversal_schedule ++ [APollCompare]) = Some s
+  exists s, run true (init true 5) (reversal_schedule ++ [APollCompare]) = Some s
             /\ hd_error (log s) = Some (EvStrobe SrcPoll 16).
 Proof. vm_compute. eexists. split; reflexivity. Qed.
